@@ -12,7 +12,7 @@ CHECKS = {
         text="TLC explores every state of the scaled conversion pipeline (ApplyMagnitude.tla: all values of 5-8 bit reps x all coprime "
              "factors, one action per pipeline stage) and proves 'not lossy => exact value, no UB, no unsigned wrap at any stage'; the same "
              "predicate over BigInt (ConvBig.tla) then judges records of the real library: 8/16-bit reps exhaustively and 32/64-bit "
-             "boundary neighbourhoods + seeded random (all 2^32 values in the thorough tier) for a TLC-generated factor grid, under a "
+             "boundary neighbourhoods + seeded random (all 2^32 values for four factors per 32-bit rep in the thorough tier) for a TLC-generated factor grid, under a "
              "clang build whose UBSan handlers raise a per-call flag.",
         note="Trusts TLC, the pure-TLA+ BigInt module, clang's UBSan instrumentation as the UB/wrap event source, LP64.  The factor "
              "grid is finite; 32/64-bit value spaces are sampled in the quick tier.",
